@@ -185,19 +185,23 @@ class WriteTool(BaseTool):
         # Find literal zone boundaries (``` fences)
         in_fence = False
         fence_start = 0
+        fence_marker = ""
         offset = 0
         for line in content.split("\n"):
             line_start = offset
             offset += len(line) + 1  # +1 for the newline separator
             stripped = line.strip()
-            if stripped.startswith("```"):
-                if not in_fence:
+            if not in_fence:
+                if stripped.startswith("```"):
                     in_fence = True
                     fence_start = line_start
-                else:
-                    in_fence = False
-                    fence_end = line_start + len(line)
-                    protected.append((fence_start, fence_end))
+                    fence_marker = stripped[: len(stripped) - len(stripped.lstrip("`"))]
+            elif stripped == fence_marker:
+                # Only the exact opening marker closes the zone (as in the lexer): a shorter
+                # backtick run inside a longer-fenced zone is content, not a fence
+                in_fence = False
+                fence_end = line_start + len(line)
+                protected.append((fence_start, fence_end))
 
         # If fence was never closed, protect from fence_start to end
         if in_fence:
